@@ -200,6 +200,42 @@ example (sch : Sched) (frag : Frag) := C11_conn_roundtrip sch frag exampleOps ex
 example (s1 s2 : Sched) (f1 f2 : Frag) :=
   C11_conn_duplex s1 s2 f1 f2 exampleOps exampleOps exampleOps_valid exampleOps_valid
 
+/-- **The physical buffer ring refines the value-level send half.**  In the
+model with the three physical 64 KiB buffers made explicit (the sender writes
+into the buffer `WriteBuf` aliases; `toWriter` carries slice headers whose
+bytes are read only when the writer goroutine calls `conn.Write`;
+`fromWriter` returns buffers for reuse), for every operation list and every
+writer schedule: the current buffer, the queued buffers and the free buffers
+are always pairwise distinct and are all `numBuffers` buffers (so the sender
+never writes into a buffer that is queued or being written and `Flush` never
+dead-locks), every queued slice covers exactly what was written into its
+buffer, and reading the queued slices from memory *now* gives exactly the
+state of the value-level model - hence every theorem above holds for the ring. -/
+theorem C11_conn_ring_refines (sch : Sched) (ops : List Op) :
+    let r := Ring.init.run sch ops
+    (r.cur :: (r.toW.map Prod.fst ++ r.fromW)).Nodup ∧
+    1 + r.toW.length + r.fromW.length = numBuffers ∧
+    (∀ p ∈ r.toW, p.2 = (getB r.mem p.1).size) ∧
+    r.abs = Sender.init.run sch ops := by
+  intro r
+  obtain ⟨h1, h2⟩ := run_sim sch ops Ring.init RingInv_init
+  exact ⟨h1.nodup, h1.count, h1.len_eq, by rw [h2]; rfl⟩
+
+/-- Ring version of `conn_send_inv`: the bytes already written, followed by
+what the writer goroutine will read from the queued physical buffers, followed
+by the content of the current buffer are the encoding of the operations so far. -/
+theorem C11_conn_ring_send_inv (sch : Sched) (ops : List Op) :
+    let r := Ring.init.run sch ops
+    joinB (r.wire ++ r.toW.map (fun p => (getB r.mem p.1).extract 0 p.2)) ++ getB r.mem r.cur = encodeAll ops := by
+  intro r
+  obtain ⟨_, _, _, h⟩ := C11_conn_ring_refines sch ops
+  have h0 := (C11_conn_send_inv sch ops 0).1
+  simp only [Sender.writerSteps] at h0
+  rw [← h] at h0
+  exact h0
+
+example (sch : Sched) := C11_conn_ring_refines sch exampleOps
+
 /-- The fixed-width encodings are big-endian and decode to the value sent
 (what `ReceiveUint16/32/Label` compute from the window). -/
 theorem C11_be_roundtrip (k n : Nat) (h : n < 256 ^ k) :
